@@ -79,6 +79,10 @@ func tryRun(w *W, idx int, prop int) {
 		tryWide(w, r, prop)
 		return
 	}
+	if k%13 == 11 {
+		trySliceFetcher(w, r, prop)
+		return
+	}
 	var names []string
 	if prop == 5 {
 		names = []string{"skeleton", "two-leaf", "mixed", "skeleton", "two-leaf", "deciding-late"}
@@ -660,6 +664,100 @@ func tryWide(w *W, r *rand.Rand, prop int) {
 				judgeKleene(w, tv, tree, b, un, kv, kerr, o, "wide-andor")
 			} else if i%4 == trial%4 {
 				judgeSoundness(w, r, tv, tree, tys, b, un, o, false, 16, "wide-andor")
+			}
+		}
+	}
+}
+
+// trySliceFetcher: the stock slice-backed fetcher built from a base config, while the program is compiled on a
+// config derived from it with further variables registered afterwards. The fetcher is truthful here: every key in its
+// range is bound, every later key is reported as not cached. TryEval must behave as with any truthful fetcher.
+func trySliceFetcher(w *W, r *rand.Rand, prop int) {
+	g := stratumByName([]string{"skeleton", "two-leaf", "deciding-late"}[r.Intn(2)]).Make(r)
+	g.Custom, g.Consts, g.Fail = false, false, 0
+	g.BoolVars = []string{"b0", "b1", "b2", "b3", "b4", "b5"}
+	tree := g.Root(2 + r.Intn(3))
+	if r.Intn(3) == 0 {
+		tree = decidingLate(r)
+	}
+	order, tys := tree.Vars()
+	for _, v := range order {
+		if tys[v] != TBool && tys[v] != TInt {
+			return
+		}
+	}
+	if len(order) < 2 {
+		return
+	}
+	w.Inc("programs")
+	w.Inc("programs_slice-fetcher")
+	r.Shuffle(len(order), func(i, j int) { order[i], order[j] = order[j], order[i] })
+	m := 1 + r.Intn(len(order)-1) // the first m variables are registered in the base config and bound
+	vals := map[string]interface{}{}
+	avail := map[string]bool{}
+	all := map[string]interface{}{}
+	for i, v := range order {
+		var val interface{} = r.Intn(2) == 0
+		if tys[v] == TInt {
+			val = int64(r.Intn(3) - 1)
+		}
+		all[v] = val
+		avail[v] = i < m
+		if i < m {
+			vals[v] = val
+		}
+	}
+	src := tree.Prefix()
+	w.Sample("slice-fetcher", src)
+	for _, o := range allOptSets() {
+		base := eval.NewConfig()
+		o.Apply(base)
+		for i := 0; i < m; i++ {
+			// keys 0..m-1 or 1..m
+			base.VariableKeyMap[order[i]] = eval.VariableKey(i + int(o)%2)
+		}
+		ctx := eval.NewCtxFromVars(base, vals)
+		if _, isSlice := ctx.VariableFetcher.(eval.SliceVarFetcher); !isSlice {
+			continue
+		}
+		derived := eval.NewConfig(eval.ExtendConf(base))
+		for i := m; i < len(order); i++ {
+			eval.GetOrRegisterKey(derived, order[i])
+		}
+		e, co := compileGuard(derived, src)
+		if co.Err != nil || co.Panic != nil {
+			w.Fail("compile-rejects-wellformed", "Compile failed: %v %v\nsource: %s", co.Err, co.Panic, src)
+			return
+		}
+		out := guard(func() (eval.Value, error) { return e.TryEval(ctx) })
+		w.Evals++
+		w.Inc("slice_fetcher_tryevals")
+		b := Binding{Vals: all, Avail: avail}
+		desc := fmt.Sprintf("source: %s\noptions: %s\nslice-backed fetcher from a base config with %v (all bound); registered afterwards on the derived config (unavailable): %v\nvalues: %s", src, o, order[:m], order[m:], b)
+		if out.Panic != nil {
+			w.Fail("panic/"+normPanic(out.Panic)+"@"+panicSite(out.Stack), "TryEval panicked: %v\n%s", out.Panic, desc)
+			continue
+		}
+		kv, kerr := refEnv(b).Kleene(tree)
+		if kerr != nil {
+			continue
+		}
+		if prop == 5 {
+			switch {
+			case out.Err != nil:
+				w.Fail("tryeval-error-on-total-program/slice-fetcher", "TryEval failed with %q (three-valued value: %s)\n%s", out.Err, valText(kv), desc)
+			case kv != refDNE && (isDNE(out.V) || !valEq(out.V, kv)):
+				w.Fail("tryeval-differs-from-kleene/slice-fetcher", "three-valued evaluation gives %s but TryEval returned %s\n%s", valText(kv), valTextAny(out.V), desc)
+			}
+		} else if definite(out) {
+			// soundness: Eval of the same program with everything bound (slice fetcher of the derived config)
+			full := guard(func() (eval.Value, error) { return e.Eval(eval.NewCtxFromVars(derived, all)) })
+			w.Evals++
+			if full.Err == nil && full.Panic == nil && kv == refDNE {
+				// the definite answer must hold for this completion (others are covered by the other strata)
+				if !valEq(full.V, out.V) {
+					w.Fail("tryeval-contradicted", "TryEval answered %s but Eval with every variable bound gives %s\n%s", valText(out.V), valText(full.V), desc)
+				}
 			}
 		}
 	}
